@@ -500,12 +500,8 @@ func fileFlush(L *LState) int {
 }
 
 func fileLinesIter(L *LState) int {
-	var file *lFile
-	if ud, ok := L.Get(1).(*LUserData); ok {
-		file = ud.Value.(*lFile)
-	} else {
-		file = L.Get(UpvalueIndex(2)).(*LUserData).Value.(*lFile)
-	}
+	// the file is the closure's; arguments (the generic for passes two) are ignored
+	file := L.Get(UpvalueIndex(2)).(*LUserData).Value.(*lFile)
 	if file.reader == nil {
 		L.RaiseError("%s is opened for only writing.", file.Name())
 	}
@@ -623,14 +619,9 @@ func ioFlush(L *LState) int {
 }
 
 func ioLinesIter(L *LState) int {
-	var file *lFile
-	toclose := false
-	if ud, ok := L.Get(1).(*LUserData); ok {
-		file = ud.Value.(*lFile)
-	} else {
-		file = L.Get(UpvalueIndex(2)).(*LUserData).Value.(*lFile)
-		toclose = true
-	}
+	// io.lines(name): the file is the closure's and is closed at the end
+	file := L.Get(UpvalueIndex(2)).(*LUserData).Value.(*lFile)
+	toclose := true
 	if file.reader == nil {
 		L.RaiseError("%s is opened for only writing.", file.Name())
 	}
@@ -654,9 +645,9 @@ func ioLines(L *LState) int {
 		if fileDefIn(L).Value.(*lFile).closed {
 			L.RaiseError("file is already closed")
 		}
-		L.Push(L.Get(UpvalueIndex(2)))
-		L.Push(fileDefIn(L))
-		return 2
+		// one closure bound to the default input (it is not closed at the end)
+		L.Push(L.NewClosure(fileLinesIter, L.Get(UpvalueIndex(1)), fileDefIn(L)))
+		return 1
 	}
 
 	path := L.CheckString(1)
